@@ -282,7 +282,9 @@ def configs(tier):
     base = dict(lost_worker_timeout=3.0, putlocks=True)
     for name, procs, jobs, pk, alpha in (
             ('results+deaths', 2, [ap, ap, ap], base,
-             dict(die=(-9,), die_idle=True, put_faults=(), max_adv=2)),
+             dict(die=(-9, 0), die_idle=True, put_faults=(), max_adv=2)),
+            ('raising-callbacks', 2, [dict(ap, cb_raises=True), ap, ap], base,
+             dict(die=(-9,), die_idle=False, put_faults=(), max_adv=2)),
             ('1slot', 1, [ap, ap], base,
              dict(die=(-9, 1), die_idle=True, put_faults=(), max_adv=2)),
             ('recycle', 2, [ap, ap, ap], dict(base, maxtasksperchild=1),
